@@ -51,6 +51,24 @@ CLAIMS['C03'] = dict(
     note='Trusted: rustc MIR, the extractor, reviewed tables (py/tables/*.json; entries marked ASSUMPTION rest on the x86 encoding / 32-bit x86 registers), third-party crates through the API table only. usize = 64 bit.',
     ref='DESIGN.md §3 C03')
 
+CLAIMS['C01'] = dict(
+    technique='panic-edge inventory with discharge rules, loop-shape classification, allocation-size provenance',
+    text='Static analysis over every non-derive function of crates minidump and minidump-common plus print_minidump_dump: each of the ~1100 panic edges (MIR overflow/bounds/division asserts and calls to panicking APIs) '
+         'is discharged by constant folding, type-history intervals, a dominating guard on the same expression trees, a known idiom, trusted third-party macro text, or a reviewed per-site argument; every loop is driven by a finite std iterator '
+         'or has a reviewed variant; every allocation size is a constant, a len() of existing data or the validated payload of ensure_count_in_bound. This holds for every byte string because it quantifies over code paths. '
+         'Four genuine defects found this way (unknown handle info type unwrap, cyclic object-info chain, exception-parameter printing, unimplemented!() context printers) were repaired in /repo. '
+         'Not decided: panics inside dependencies, a numeric memory bound.',
+    note='Trusted: rustc MIR construction, the extractor, dependencies through the panicking-API table only, derive / third-party macro output, the reviewed tables under py/tables (void when their backing rule fails). usize = 64 bit.',
+    ref='DESIGN.md §3 C01')
+CLAIMS['C12'] = dict(
+    technique='who-may-call over the resolved call graph, dominance / post-dominance on the check-then-fill protocol, guard live ranges against yield points, slot re-entry reachability',
+    text='The at-most-once, same-outcome, counter and no-self-deadlock clauses follow from a lock discipline visible in the code on every path: SymbolSupplier::locate_symbols (resolved and dyn) is called only from the closure run under the per-module slot '
+         '(plus the documented Http->local delegation); CachedAsyncResult::get takes the lock once, tests is_none and fills through the same guard with no unlock in between; the slot map is reached only through cache_default(module_key) with all four identity fields; '
+         'symbols_requested += 1 dominates and symbols_processed += 1 post-dominates the supplier call; no std guard is live across an await; no slot closure can reach its own slot again. These are static facts for all schedules; executor fairness, '
+         'the async mutex and CacheMap are trusted; cancellation is excluded by the property.',
+    note='Trusted: futures_util::lock::Mutex, cachemap2::CacheMap (insert-only, stable slots), rustc MIR of coroutines before the state transform. dyn calls are over-approximated by method name.',
+    ref='DESIGN.md §3 C12')
+
 NOT_YET = {}
 NA = {
     'C14': 'every clause relates values of the result to values of the dump (which thread, which context, which address after masking); no clause has a structural form that would not also fire on behaviour-preserving rewrites, so static analysis does not apply; its panic-freedom is covered under C03',
